@@ -10,7 +10,7 @@ RULE = ("graph searches on the real core code (Dijkstra, A* with weight factors 
         "worlds inside the property's hypotheses (edge-local frontier = forbid sets, edge-local positive costs, no "
         "failing model, no limit): deterministic families first (forbidden bridge / parallel twin / first hop / last "
         "hop, everything forbidden, two components, one-way streets, chains, relabelling, long hauls (edges summing to 2^20..1e9 cost units, then a zero-cost / sub-MIN_COST connector as the only way onward, then more vertices and a zero-cost 2-cycle: the clamped 1e-10 is absorbed by the f64 addition), edge-oriented with a "
-        "forbidden edge between or on the query edges; extreme weight factors {0, 5e-324, 1e-300, 1e300, 1e308, f64::MAX} from the algorithm config and from the query's weight_factor field with non-zero heuristic tables, so that f-scores underflow or are all +infinity, on reachable and unreachable destinations; family real_world: the network is written to CSV files and LOADED by Graph::from_files (connector edges of length 0, 1e-9, 1e-3 as the only link between two parts) and the frontier model is a REAL one built by CompassAppBuilder::build_frontier_model_service from generated files and instantiated with the query (vehicle restrictions for every pair of vehicle unit x limit unit - meters/kilometers/miles/inches/feet, pounds/tons/kg - with the limit 20 % below and 25 % above the vehicle's quantity on the only connecting edge; road-class tables with ids >= 64 whose connector class is congruent modulo 64 to a permitted class; combined), vertex-oriented forward Dijkstra/A*, where S takes as permitted edges those that C04's specification Model/FrontierSpec.v admits (exact unit factors, class membership); SEQUENCES: 2-4 searches in a row on ONE thread and one SearchInstance (the first ending in no path / unknown vertex / terminated; then destination and tree queries over the same vertices; deterministic shapes, both directions and orientations, and random three-search sequences) and 2-4 queries with DIFFERENT vehicles on ONE vehicle-restriction service (van/truck orders under a 4 m, 10 ton or combined connector): every element is its own case and is judged by S for its own query alone (sequences on one thread / one service); plus searchkit's boundary families: dead-end origin, isolated "
+        "forbidden edge between or on the query edges; extreme weight factors {0, 5e-324, 1e-300, 1e300, 1e308, f64::MAX} from the algorithm config and from the query's weight_factor field with non-zero heuristic tables, so that f-scores underflow or are all +infinity, on reachable and unreachable destinations; family real_world: the network is written to CSV files and LOADED by Graph::from_files (connector edges of length 0, 1e-9, 1e-3 as the only link between two parts) and the frontier model is a REAL one built by CompassAppBuilder::build_frontier_model_service from generated files and instantiated with the query (vehicle restrictions for every pair of vehicle unit x limit unit - meters/kilometers/miles/inches/feet, pounds/tons/kg - with the limit 20 % below and 25 % above the vehicle's quantity on the only connecting edge; road-class tables with ids >= 64 whose connector class is congruent modulo 64 to a permitted class; combined), vertex-oriented forward Dijkstra/A*, where S takes as permitted edges those that C04's specification Model/FrontierSpec.v admits (exact unit factors, class membership); SEQUENCES: 2-4 searches in a row on ONE thread and one SearchInstance (the first ending in no path / unknown vertex / terminated; then destination and tree queries over the same vertices; deterministic shapes, both directions and orientations, and random three-search sequences) and 2-4 queries with DIFFERENT vehicles on ONE vehicle-restriction service (van/truck orders under a 4 m, 10 ton or combined connector): every element is its own case and is judged by S for its own query alone (sequences on one thread / one service); family cost_model: the REAL CostModel with CostAggregation::Mul (Sum as control) and a vehicle cost rate offset / factor / weight that makes the feature cost of the only connector (or of every edge) NEGATIVE before the strictly-positive floor - reachability does not depend on costs (no M line for this family: the Coq search model has no such cost model; S = reachb / reach_set / pwalkb); family hub_star: a hub with 70000 / 65537 / 65536 spokes in the search direction, tree and a sample of spoke destinations (no M line; S is a summary-fact expectation stated by the harness from the property, not Coq-evaluated: too large for the Coq runner); plus searchkit's boundary families: dead-end origin, isolated "
         "or neighbouring destination, self loops, parallel edges, one-way ring, destination edge adjacent to / "
         "reverse of / ending at the start of the origin edge), then EVERY digraph on <= 2 vertices (thorough: <= 3) "
         "with self loops, plus one with a parallel twin, x every ordered pair and every destination-less origin x both "
@@ -76,8 +76,13 @@ def fix_ties(r):
     """the model prints TIE:<status> when its run popped among equal priorities and the answer may depend on the
     crate's unspecified choice (the route of a destination query; the parents/state labels of a tree query whose cost
     table has zero or clamped costs): only the status is compared for such a case; S still judges I"""
-    M, I = r.model.get("M", {}), r.impl.get("I", {})
+    M, I = r.model.setdefault("M", {}), r.impl.get("I", {})
     k = 0
+    # families without a model line by design (the Coq search model has no Mul aggregation / cost-rate cost model; star
+    # networks of 70000 spokes are not evaluated in Coq): only I vs S is compared
+    for cid, case in r.cases.items():
+        if case.get("no_model_line") and cid in I and cid not in M:
+            M[cid] = I[cid]
     for cid, m in list(M.items()):
         if m == "unspecified" and cid in I:
             # real_world family: the specification leaves some edge undecided (both lines say so): nothing to compare
